@@ -532,9 +532,58 @@ def dos_smear_unit(u, res):
     if v == "sat":
         ok, what = replay_dos_smear()
         (res.violations if ok else res.unconfirmed).append({"key": key + ":projected", "what": what, "replay": {}})
+    # (3) the coefficients ProjectedDos derives from *complex* eigenvectors: |e|^2 summed over x, y, z (default), per Cartesian
+    #     component (xyz_projection) and |d.e|^2 for a projection direction d - polynomial identities in Re e, Im e
+    nq2, nat2 = 2, 2
+    nb2 = 3 * nat2
+    er = harness.reals("er", nq2 * nb2 * nb2); ei = harness.reals("ei", nq2 * nb2 * nb2)
+    Ev = symnp.symarray([symnp.SC(symnp.SR(a), symnp.SR(b)) for a, b in zip(er, ei)], (nq2, nb2, nb2))
+    Ebox = box(er + ei)
+    mesh2 = FakeMeshObj(np.ones((nq2, nb2)), np.array([1, 1], dtype="int64"), eigenvectors=Ev)
+
+    def mod2(q_, row, band):
+        k = (q_ * nb2 + row) * nb2 + band
+        return symnp.SR(er[k]) * symnp.SR(er[k]) + symnp.SR(ei[k]) * symnp.SR(ei[k])
+    dvec = np.array([1.0, 2.0, -0.5]); dn = dvec / np.linalg.norm(dvec)
+    with symnp.session({"phonopy.phonon.dos"}):
+        variants = {"atoms": dosm.ProjectedDos(mesh2, sigma=0.1)._eigvecs2, "xyz": dosm.ProjectedDos(mesh2, sigma=0.1, xyz_projection=True)._eigvecs2,
+                    "direction": dosm.ProjectedDos(mesh2, sigma=0.1, direction=dvec)._eigvecs2}
+    want = {"atoms": [mod2(q_, 3 * a, b) + mod2(q_, 3 * a + 1, b) + mod2(q_, 3 * a + 2, b) for q_ in range(nq2) for a in range(nat2) for b in range(nb2)],
+            "xyz": [mod2(q_, r, b) for q_ in range(nq2) for r in range(nb2) for b in range(nb2)], "direction": []}
+    for q_ in range(nq2):
+        for a in range(nat2):
+            for b in range(nb2):
+                re_ = sum(symnp.SR(er[(q_ * nb2 + 3 * a + c) * nb2 + b]) * float(dn[c]) for c in range(3))
+                im_ = sum(symnp.SR(ei[(q_ * nb2 + 3 * a + c) * nb2 + b]) * float(dn[c]) for c in range(3))
+                want["direction"].append(re_ * re_ + im_ * im_)
+    for vname, got in variants.items():
+        v, m, idx = assert_equal(res, "ProjectedDos coefficients (%s) == squared moduli of the complex eigenvector components" % vname, symnp.unwrap(got), symnp.unwrap(symnp.symarray(want[vname])),
+                                 Ebox, tol=1e-10, chunk=12, relax=True)
+        if v == "sat":
+            ev = (harness.model_floats(m, er) + 1j * harness.model_floats(m, ei)).reshape(nq2, nb2, nb2)
+            ok, what = replay_pdos_coef(ev, dvec)
+            (res.violations if ok else res.unconfirmed).append({"key": key + ":coef_" + vname, "what": what, "replay": {"re": ev.real.tolist(), "im": ev.imag.tolist()}})
+        elif v == "unknown":
+            res.notes.append("inconclusive " + key + ":coef_" + vname)
     res.twins.append({"name": "smear twin", "verdict": "sat" if any(isinstance(t, z3.ExprRef) for t in symnp.unwrap(pdos)) else "unsat"})
     res.samples.append({"unit": res.unit, "symbols": len(gs) + len(es)})
     return res
+
+
+@symnp.outside_session
+def replay_pdos_coef(ev, dvec):
+    import phonopy.phonon.dos as dosm
+    nq, nb, _ = ev.shape
+    mesh = FakeMeshObj(np.ones((nq, nb)), np.ones(nq, dtype="int64"), eigenvectors=ev)
+    dn = np.array(dvec) / np.linalg.norm(dvec)
+    a = dosm.ProjectedDos(mesh, sigma=0.1)._eigvecs2
+    x = dosm.ProjectedDos(mesh, sigma=0.1, xyz_projection=True)._eigvecs2
+    d = dosm.ProjectedDos(mesh, sigma=0.1, direction=np.array(dvec, dtype=float))._eigvecs2
+    e2 = np.abs(ev) ** 2
+    wa = e2[:, 0::3, :] + e2[:, 1::3, :] + e2[:, 2::3, :]
+    wd = np.abs(ev[:, 0::3, :] * dn[0] + ev[:, 1::3, :] * dn[1] + ev[:, 2::3, :] * dn[2]) ** 2
+    dev = max(float(np.abs(a - wa).max()), float(np.abs(x - e2).max()), float(np.abs(d - wd).max()))
+    return dev > 1e-10, "ProjectedDos coefficients differ from the squared moduli of the (complex) eigenvector components by %.3g (default / xyz / direction %s); most negative coefficient %.3g" % (dev, list(dvec), float(min(a.min(), x.min(), d.min())))
 
 
 @symnp.outside_session
